@@ -460,6 +460,24 @@ func (w *World) RelayContent(t string, l *Ledger) (*wire.MsgTx, bool) {
 				return spend([]*Coin{c}, out(6*Mass+1, bindingPk(A.Addrs[1].Hash, target)), out(c.Value-6*Mass-1-fee, w.SPk)), true
 			}
 		}
+	case "sb", "bb": // unconfirmed staking ("sb") / binding ("bb") deposit to wallet B
+		B := w.Wallets["B"]
+		if B == nil || len(B.Addrs) == 0 {
+			return nil, false
+		}
+		for _, c := range l.ByOrder {
+			if c.SpentAt == 0 && c.Owner == nil && c.Class == ClassStd && string(c.Hash) == string(w.SHash) &&
+				!w.relayedSpends(c.OP) && w.NextSpendable(c, l) {
+				if t == "sb" {
+					return spend([]*Coin{c}, out(5*Mass+2, stakingPk(B.Addrs[0].Hash, consensus.MinFrozenPeriod+1)), out(c.Value-5*Mass-2-fee, w.SPk)), true
+				}
+				target := fixedHash(0x64)[:20]
+				if forks.EnforceMASSIP0002WarmUp(l.Height + 1) {
+					target = append(fixedHash(0x65)[:20], 0, 32)
+				}
+				return spend([]*Coin{c}, out(6*Mass+2, bindingPk(B.Addrs[0].Hash, target)), out(c.Value-6*Mass-2-fee, w.SPk)), true
+			}
+		}
 	case "sw": // unconfirmed withdrawal of a staking/binding deposit
 		for _, c := range l.ByOrder {
 			if c.SpentAt == 0 && c.Owner != nil && c.Owner.Wallet == "A" && c.Class != ClassStd && !w.relayedSpends(c.OP) && w.NextSpendable(c, l) {
